@@ -133,6 +133,7 @@ type Gen struct {
 	regenDone   bool
 	drain       bool
 	drainStep   int
+	chased      bool
 }
 
 func NewGen(e *Env, prof *Profile) *Gen {
@@ -253,6 +254,42 @@ func (g *Gen) Next() *Step {
 		return nil
 	}
 	r := g.r
+	// directed exploration: if a model is scheduled to expire before one of its paid shards, go and
+	// see what happens at that height (only the actual disappearance is ever reported, by C11)
+	if !g.chased {
+		s := e.Cur
+		for _, id := range sortedKeys(s.Model.Metas) {
+			m := s.Model.Metas[id]
+			end := m.CreatedAt + m.Duration
+			if int(end) <= h || end > uint64(h)+9000 {
+				continue
+			}
+			for _, oid := range m.Orders {
+				o, ok := s.Order.Orders[oid]
+				if !ok {
+					continue
+				}
+				for _, sid := range o.Shards {
+					sh, ok := s.Order.Shards[sid]
+					if !ok || sh.Status != ordertypes.ShardCompleted {
+						continue
+					}
+					paid := sh.CreatedAt + sh.Duration
+					for _, ri := range sh.RenewInfos {
+						paid += ri.Duration
+					}
+					if end < paid {
+						g.chased = true
+						e.probe("chased_model_expiry_before_shard_end")
+						if g.horizon < int(end)+3 {
+							g.horizon = int(end) + 3
+						}
+						return &Step{Idle: int(end) - h}
+					}
+				}
+			}
+		}
+	}
 	// drain phase (some runs): near the end every provider withdraws its free capacity in two
 	// odd-sized steps, so that "capacity removed, pledge/pool leftovers" states are reached
 	if g.drain && !g.p.Long && h >= g.horizon-14 && g.drainStep < 2 {
